@@ -41,8 +41,41 @@ HISTORY_ROOTS = {
 }
 
 
-def shared_clauses(rep, model, pid):
+# rules of another property that decide a clause this property depends on (the function lives in the other property's files, the behaviour is part of both)
+BORROWED = {
+    'C12': [('c13', ('FLAT-ONCE',), 'axis 0 / 1: every slice goes through compute_features_2d(axis=None), whose flattening and epoching C13 decides')],
+    'C13': [('c08', ('SCHEMA',), 'per-epoch re-labelling runs the detectors, whose run filter C08 decides'),
+            ('c06', ('LABEL-DEF',), 'per-epoch re-labelling with the cycles method is detect_bursts_cycles'),
+            ('c07', ('LABEL-DEF',), 'per-epoch re-labelling with the amp method is detect_bursts_amp')],
+    'C14': [('c12', ('SWAP-UNSWAP',), 'BycycleGroup.recompute_edges writes into the rows compute_features_3d returned: they must be lists')],
+    'C16': [('c06', ('LABEL-DEF',), 'the edited table is re-labelled by detect_bursts_cycles')],
+    'C17': [('c03', ('MID-DEF', 'ZEROX-DEF'), 'the midpoints the phase function indexes with are the arrays find_zerox returns')],
+    'C19': [('c01', ('PAIRING',), 'a documented option can only be rejected if it reaches its validator unchanged: compute_cyclepoints forwards find_extrema\'s options as given')],
+}
+FRONT_END_PROPS = FRONT_END_PROPS + ('C19',)
+HISTORY_ROOTS.update({'C11': ['compute_features_2d'], 'C12': ['compute_features_3d'], 'C13': ['compute_features_2d', 'epoch_df'],
+                      'C14': ['compute_features', 'compute_features_2d', 'compute_features_3d', 'recompute_edges'], 'C19': ['compute_features', 'compute_features_2d', 'compute_features_3d']})
+
+
+def borrow(rep, model, tier, modname, rules, why):
+    """run another property's rules and keep the instances of the named ones (their floors, assumptions and other rules are that property's business)"""
+    import importlib
+    mod = importlib.import_module(f'sa.rules.{modname}')
+    before_i, rules0, floors0, assume0 = len(rep.instances), dict(rep.rules), dict(rep.floors), list(rep.assumptions)
+    mod.check(rep, model, tier)
+    kept = [i for i in rep.instances[before_i:] if i['rule'] in rules and i['status'] != 'unresolved' or (i['rule'] in rules and i['status'] == 'unresolved')]
+    rep.instances[before_i:] = kept
+    new_rules = {k: v for k, v in rep.rules.items() if k in rules and k not in rules0}
+    rep.rules = dict(rules0)
+    for k, v in new_rules.items():
+        rep.rules[k] = f'{v} [borrowed from {modname.upper()}: {why}]'
+    rep.floors, rep.assumptions = floors0, assume0
+
+
+def shared_clauses(rep, model, pid, tier='quick'):
     from sa.rules import common
+    for modname, rules, why in BORROWED.get(pid, ()):
+        borrow(rep, model, tier, modname, rules, why)
     if pid in FRONT_END_PROPS:
         from sa.rules import c14
         c14.front_end(rep, model)
@@ -64,7 +97,7 @@ def run_property(pid, tier, root):
         mod = importlib.import_module(f'sa.rules.{pid.lower()}')
         del engine.PYERRORS[:]
         mod.check(rep, model, tier)
-        shared_clauses(rep, model, pid)
+        shared_clauses(rep, model, pid, tier)
         engine.report_pyerrors(rep)
     except AnalysisTimeout:
         rep.unresolved('ENGINE', 'timeout', '-', 'symbolic evaluation did not finish within the time budget (term blow-up on a construct outside the model)')
